@@ -179,7 +179,12 @@ def family_c07(sig, api, rnd, n_per_type, nfacts, max_stop):
     members = [pre + facts + [dict(fin)]]
     for j in range(max_stop + 1):
         members.append(pre + facts + [{"op": "close_until", "stop": j}] + [dict(fin)])
-        members.append(pre + facts + [{"op": "close_until", "stop": j}, {"op": "close_until", "stop": 1}] + [dict(fin)])
+        # resumed by further close_until calls: one whose condition already holds on entry (stop 0),
+        # ones that run one or two more iterations, and chains of them
+        for j2 in (0, 1, 2):
+            members.append(pre + facts + [{"op": "close_until", "stop": j}, {"op": "close_until", "stop": j2}] + [dict(fin)])
+        members.append(pre + facts + [{"op": "close_until", "stop": j}, {"op": "close_until", "stop": 0}, {"op": "close_until", "stop": 0}] + [dict(fin)])
+        members.append(pre + facts + [{"op": "close_until", "stop": j}, {"op": "close_until", "stop": 1}, {"op": "close_until", "stop": 0}] + [dict(fin)])
     fam2 = [pre + facts + more + [dict(fin)]]
     for j in range(max_stop + 1):
         fam2.append(pre + facts + [{"op": "close_until", "stop": j}] + more + [dict(fin)])
